@@ -396,12 +396,12 @@ def run(chk, F, tier):
                    ("dispatch::DynamicCodeWrite", "write"), ("dispatch::StaticCodeWrite<E, CW>", "write")):
         b = F.one(name=nm, trait_is=tr, impl_self="utils::stats::CodesStatsWrapper<")
         probs = []
-        for p in mir.walk(b):
+        for p in mir.walk_inline(b, F):
             if p.end[0] != "return":
                 continue
             fwd = [e for e in p.calls() if e[1].startswith("dispatch::") and e[1].endswith("::" + nm)]
             ups = [e for e in p.calls() if e[1].endswith("::update") or e[1].endswith("::update_many")]
-            is_err = isinstance(p.ret, tuple) and p.ret[0] == "from_residual"
+            is_err = isinstance(p.ret, tuple) and (p.ret[0] == "from_residual" or (p.ret[0] == "agg" and p.ret[3] == "Err"))
             if is_err:
                 if ups:
                     probs.append("updates statistics on the error path")
